@@ -14,6 +14,7 @@ import (
 	"gitlab.com/gomidi/midi/v2"
 	cc "gitlab.com/gomidi/midi/v2/internal/verifh/conccases"
 	cp "gitlab.com/gomidi/midi/v2/internal/verifh/concpairs"
+	"gitlab.com/gomidi/midi/v2/internal/verifh/disturb"
 	"gitlab.com/gomidi/midi/v2/internal/verifh/engine"
 	"gitlab.com/gomidi/midi/v2/smf"
 )
@@ -311,8 +312,8 @@ func sysexSpace(part, parts int) {
 				for _, i := range idx {
 					b = append(b, sysexAlpha[i])
 				}
-				judgeMidi(b[:l+1 : l+1])
-				judgeSMF(b[:l+1 : l+1])
+				judgeMidi(b[: l+1 : l+1])
+				judgeSMF(b[: l+1 : l+1])
 				b = append(b, 0xF7)
 				judgeMidi(b)
 				judgeSMF(b)
@@ -540,6 +541,7 @@ func constructed() {
 
 func main() {
 	ctx = engine.Start("C08", "exploration")
+	disturb.Install(ctx)
 	if ctx.ReplayPath != "" {
 		if cp.Replay(ctx, ctx.LoadReplay(), "classification", cc.Classify()) {
 			ctx.Finish("replay")
